@@ -82,6 +82,7 @@ public:
         future_conv *_this = static_cast<future_conv *>(me);
         promise<To> p = std::move(_this->_prom);
         try {
+            _this->_fut.value();    //source has no value to pass, but its exception (or broken promise) must be propagated
             if constexpr(std::is_void_v<To>) {
                 (ctx->*fn)();
                 return p();
@@ -117,6 +118,7 @@ public:
         future_conv *_this = static_cast<future_conv *>(me);
         promise<To> p = std::move(_this->_prom);
         try {
+            _this->_fut.value();    //source has no value to pass, but its exception (or broken promise) must be propagated
             return (ctx->*fn)(p);
         } catch (...) {
             return p(std::current_exception());
